@@ -170,3 +170,14 @@ def run(ctx):
                 "schedule prefixes" % (sorted(MODELS), calls, 2 if not ctx.thorough else 3, bound))
     ctx.assumptions = ["sequentially consistent atomics", "plain data races are covered only by the TSan companion (sampling)",
                        "cap %d executions per (model, call, workers, shard), reported if hit" % cap]
+
+
+def replay(ctx, path):
+    """Re-run one recorded schedule without the explorer: ./check C02 --replay <file>"""
+    import json as _json
+    r = _json.load(open(path))["replay"]
+    p = subprocess.run([exes(), "replay", _model_file(r["model"]), r["call"], str(r["workers"]), r.get("schedule", "")],
+                       capture_output=True, text=True)
+    print(p.stdout[-3000:])
+    print("replay exit", p.returncode)
+    return 1 if p.returncode else 0
